@@ -2,6 +2,7 @@ import H3.Model.WriteBuf
 import H3.Model.SendSide
 import H3.Spec.Output
 import H3.Lemmas.WriteBuf
+import H3.Lemmas.WriteBufChunks
 import H3.Lemmas.SendFrames
 import H3.Lemmas.SendSide
 /-! # C14 — everything an h3 endpoint writes is valid HTTP/3, however the transport takes it
@@ -72,6 +73,78 @@ theorem C14_buf_view (w : WB) (hwf : w.WF) :
 -- `advance` across the end of the header, and the payload's own panic beyond its end
 example : ((fromFrame (.data [9, 8, 7])).bind (·.advance 3)).map (·.view) = some [8, 7] := by decide
 example : ((fromFrame (.data [9, 8, 7])).bind (·.advance 6)) = none := by decide
+
+/-- Chunking independence.  `Frame<B>` / `WriteBuf<B>` are generic in the payload `B: Buf`; for a
+    payload handed over as ANY list of segments (a `Chain`, a deque of `Bytes`; segments may be
+    empty, also the first) the DATA length field and the bytes handed to the transport depend only
+    on the flattened payload: the conversion yields the `WriteBuf` of the flat payload with the
+    payload left in segments (same header array: length = total of all segments, not of the first);
+    `remaining()` is exact; under every acceptance script the run of the segmented buffer is a run
+    of the FLAT buffer under a script of the same length (each poll accepting what was actually
+    taken) — so every statement proved for all scripts about contiguous payloads
+    (`C14_writebuf_is_header_then_payload`, `C14_program_output_valid`, whose `poll sid k` steps
+    range over every `k`) covers segmented ones —, nothing is lost, repeated or reordered, and as
+    soon as the script has accepted enough, `write()` returns having handed over exactly
+    `header ++ flattened payload`. -/
+theorem C14_payload_chunking_independent (segs : List Bytes) (hdr : Bytes)
+    (he : encodeFrame (.data segs.flatten) = some hdr) (hfit : hdr.length ≤ WRITE_BUF_ENCODE_SIZE)
+    (script : List Nat) :
+    ∃ w, fromDataC segs = some w ∧ fromFrame (.data segs.flatten) = some w.flat ∧
+      w.remaining = (hdr ++ segs.flatten).length ∧
+      (∃ out w' script', w.drain script = some (out, w') ∧ script'.length = script.length ∧
+        w.flat.drain script' = some (out, w'.flat) ∧
+        out ++ w'.flat.view = hdr ++ segs.flatten ∧ w'.remaining = w'.flat.view.length) ∧
+      ((hdr ++ segs.flatten).length ≤ (script.filter (0 < ·)).length →
+        writeC (fromDataC segs) script = .ready (hdr ++ segs.flatten)) := by
+  have hflat := fromDataC_flat segs
+  have hex : ∃ wf, fromFrame (.data segs.flatten) = some wf := by
+    unfold fromFrame; rw [he]; exact putOpt_new_some _ _ hfit
+  obtain ⟨wf, hwf0⟩ := hex
+  rw [hwf0] at hflat
+  cases hc : fromDataC segs with
+  | none => rw [hc] at hflat; cases hflat
+  | some w =>
+    rw [hc] at hflat
+    simp only [Option.map_some, Option.some.injEq] at hflat
+    subst hflat
+    obtain ⟨bs, hbs, _, hwf, _, _, _, hv⟩ := putOpt_new hwf0
+    rw [he] at hbs
+    cases hbs
+    simp only [framePayload, Option.getD_some] at hv
+    refine ⟨w, rfl, hwf0, by rw [← flat_remaining, remaining_eq_view _ hwf, hv], ?_, ?_⟩
+    · obtain ⟨o, w', ks', hd, hl, hfd, hwf', hov⟩ := drainC_sim w hwf script
+      exact ⟨o, w', ks', hd, hl, hfd, by rw [hov, hv],
+        by rw [← flat_remaining, remaining_eq_view _ hwf']⟩
+    · intro hlen
+      obtain ⟨o, w', hd, hv0, ho⟩ := drainC_complete w hwf script (by rw [hv]; exact hlen)
+      obtain ⟨_, _, _, hd', _, _, hwf', _⟩ := drainC_sim w hwf script
+      rw [hd] at hd'
+      cases hd'
+      have hr : w'.remaining = 0 := by
+        rw [← flat_remaining, remaining_eq_view _ hwf', hv0]; rfl
+      simp only [writeC, hd, hr, if_true]
+      rw [ho, hv]
+
+/-- One `poll_write` over a segmented payload is one `poll_write` over the flat payload that
+    accepts exactly the bytes taken (the step relation of `H3.SendSide`'s `poll sid k`, `k` = the
+    number of bytes taken); the same for `(StreamType, Frame::Data)` pairs. -/
+theorem C14_chunked_poll_is_flat_poll (w : WBC) (hwf : w.flat.WF) (k : Nat) :
+    ∃ o w', w.step k = some (o, w') ∧ w.flat.step o.length = some (o, w'.flat) ∧ w'.flat.WF ∧
+      o.length ≤ k ∧ (0 < k → w.flat.view ≠ [] → o ≠ []) := by
+  obtain ⟨o, w', h1, h2, h3, _, h5, h6⟩ := stepC_sim w hwf k
+  exact ⟨o, w', h1, h2, h3, by omega, h6⟩
+
+-- three segments, the first and the third empty: the length field counts all of them, the
+-- transport gets header, then segment after segment; the same bytes as for the flat payload
+example : writeC (fromDataC [[], [0xaa, 0xbb], [], [0xcc]]) [1, 0, 7, 7, 7] =
+    .ready [0x00, 0x03, 0xaa, 0xbb, 0xcc] := by decide
+example : (fromDataC [[0xaa], [0xbb, 0xcc]]).map (fun w => (w.remaining, w.chunk, (w.advance 3).map (·.chunk)))
+    = some (5, [0x00, 0x03], some [0xbb, 0xcc]) := by decide
+-- a script that stops inside the second segment
+example : (match writeC (fromDataC [[1], [2, 3, 4]]) [2, 5, 2] with
+    | .pending out w => (out, w.view)
+    | _ => ([], [])) = ([0x00, 0x04, 1, 2, 3], [4]) := by decide
+example : (fromPairDataC 0x21 [[], [7]]).map (·.flat.view) = some [0x21, 0x00, 0x01, 7] := by decide
 
 /-- The stream-type prefix of `(StreamType, Frame)` pairs and of unidirectional stream headers
     precedes the frame: the view is `varint(type) ++ header ++ payload`, under every script. -/
